@@ -11,6 +11,9 @@ import ast
 from ..cfg import CFG, EXIT, RAISE
 from ..model import calls_in, call_name, is_stub, kwarg, real_body, u, walk_no_nested
 from ..nf import NF, Env, Opaque, show, sym
+from ..paths import summaries
+from ..rulekit import need
+from ..tmpl import T, tmatch
 
 TD = "hugr.build.tracked_dfg.TrackedDfg"
 LIST_SHRINK = {"pop", "remove", "insert", "clear", "sort", "reverse", "extend", "__delitem__"}
@@ -65,15 +68,15 @@ def run(ctx) -> None:
 
 
 def tracked_add_rules(ctx, R2="C15.R2", R3="C15.R3") -> None:
+    """stated over the canonical body of TrackedDfg.add (hv/canon.py) and the summaries of its rebinding loop"""
     prog = ctx.program
     td = prog.cls(TD)
     file = td.module.path
     nf = NF(prog)
     # ---- R2
-    add = td.methods.get("add")
-    base_add = prog.cls("hugr.build.dfg.DfBase").methods.get("add")
-    if add is None or base_add is None:
-        ctx.broken("anchor vanished: TrackedDfg.add / DfBase.add")
+    add_o, _, _ = ctx.locate(f"{TD}.add")
+    add = ctx.cfn(f"{TD}.add")
+    base_add = ctx.cfn("hugr.build.dfg.DfBase.add")
     ops_calls = calls_in(add, "add_op")
     base_calls = calls_in(base_add, "add_op")
     if len(ops_calls) != 1 or len(base_calls) != 1:
@@ -81,13 +84,12 @@ def tracked_add_rules(ctx, R2="C15.R2", R3="C15.R3") -> None:
     call, bcall = ops_calls[0], base_calls[0]
     com = add.args.args[1].arg
     env = Env(td.module, td, {"self": sym("self"), com: sym(com), "metadata": sym("metadata")}, {sym("self"): td})
-    for st in real_body(add):
-        if isinstance(st, ast.Assign) and isinstance(st.targets[0], ast.Name) and st is not None:
-            if call in list(ast.walk(st)):
-                break
-            env.vars[st.targets[0].id] = nf.ev(st.value, env)
-    a0 = nf.ev(call.args[0], env) if call.args else None
-    rest = [nf.ev(a.value if isinstance(a, ast.Starred) else a, env) for a in call.args[1:]]
+    try:
+        a0 = nf.ev(call.args[0], env) if call.args else None
+        rest = [nf.ev(a.value if isinstance(a, ast.Starred) else a, env) for a in call.args[1:]]
+    except Opaque as e:
+        a0, rest = None, []
+        ctx.note(f"C15.R2: add_op arguments not normalisable: {e}")
     starred = [isinstance(a, ast.Starred) for a in call.args[1:]]
     want_wires = nf.ev(ast.parse(f"(self.tracked_wire(inc) if isinstance(inc, int) else inc for inc in {com}.incoming)", mode="eval").body, env)
     ok = a0 == ("attr", sym(com), "op") and len(rest) == 1 and starred == [True] and rest[0] == want_wires
@@ -102,52 +104,63 @@ def tracked_add_rules(ctx, R2="C15.R2", R3="C15.R3") -> None:
               expected=str(bkw), found=str(kw))
     tw = td.methods.get("_to_wires")
     if tw is not None:
-        t, _ = nf.method_nf(td, "_to_wires")
-        want, _ = nf.expr_nf("(self.tracked_wire(inc) if isinstance(inc, int) else inc for inc in in_wires)", td, extra={"in_wires": sym("in_wires")})
+        pname = tw.args.args[1].arg
+        try:
+            t, _ = nf.method_nf(td, "_to_wires")
+        except Opaque as e:
+            ctx.broken(f"TrackedDfg._to_wires not normalisable: {e}")
+        want, _ = nf.expr_nf(f"(self.tracked_wire(inc) if isinstance(inc, int) else inc for inc in {pname})", td, extra={pname: sym(pname)})
         ctx.check(t == want, R2, "TrackedDfg._to_wires", file, tw.lineno, "ints denote the wire tracked at that index, wires denote themselves, order preserved", tw,
                   expected=show(want), found=show(t))
     # ---- R3
-    loops = [n for n in real_body(add) if isinstance(n, ast.For)]
-    ok = len(loops) == 1 and u(loops[0].iter) == f"enumerate({com}.incoming)" and isinstance(loops[0].target, ast.Tuple)
+    node_defs = [s_ for s_ in add.body if isinstance(s_, (ast.Assign, ast.AnnAssign)) and call in list(ast.walk(s_))]
+    nodevar = None
+    if node_defs:
+        tg = node_defs[0].targets[0] if isinstance(node_defs[0], ast.Assign) else node_defs[0].target
+        nodevar = tg.id if isinstance(tg, ast.Name) else None
+    loops = [n for n in add.body if isinstance(n, ast.For)]
+    ok = len(loops) == 1 and nodevar is not None and u(loops[0].iter) == f"enumerate({com}.incoming)" and isinstance(loops[0].target, ast.Tuple) \
+        and len(loops[0].target.elts) == 2 and all(isinstance(e, ast.Name) for e in loops[0].target.elts)
     if ok:
         lp = loops[0]
         pv, wv = u(lp.target.elts[0]), u(lp.target.elts[1])
-        g = CFG(lp.body, loop_body=True)
-        stores = g.where(lambda s: isinstance(s, ast.Assign) and u(s.targets[0]).startswith("self.tracked["))
-        ok = len(stores) == 1
-        if ok:
-            st = g.stmt[stores[0]]
-            idx = u(st.targets[0].slice)
-            # index variable is the int argument itself
-            idx_src = idx
-            for s in ast.walk(lp):
-                if isinstance(s, ast.Assign) and isinstance(s.targets[0], ast.Name) and s.targets[0].id == idx:
-                    idx_src = u(s.value)
-            val_ok = u(st.value) == f"n.out({pv})" or u(st.value) == f"n[{pv}]"
-            # executed exactly when isinstance(wire, int)
-            tests = [n for n in g.dominators()[stores[0]] if g.kind.get(n) == "test"]
-            guard_ok = any(u(g.stmt[t]) == f"isinstance({wv}, int)" for t in tests)
-            skip_ok = EXIT in g.reachable(0, avoid={stores[0]})     # non-ints skip the store
-            ok = idx_src == wv and val_ok and guard_ok and skip_ok
-        ctx.check(ok, R3, "TrackedDfg.add: rebinding", file, lp.lineno,
-                  "for each position p whose argument is an int i, tracked[i] must become the new node's output p; other arguments are skipped", lp)
-        nodevar_assign = [s for s in real_body(add) if isinstance(s, ast.Assign) and call in list(ast.walk(s))]
-        after = bool(nodevar_assign) and real_body(add).index(nodevar_assign[0]) < real_body(add).index(lp)
+        why = ""
+        good = True
+        seen_int = False
+        for p in summaries(lp.body):
+            is_int = p.has_test(f"isinstance({wv}, int)")
+            taken = [k for t, k in p.tests if u(t) == f"isinstance({wv}, int)"]
+            stores = [e for e in p.effects if isinstance(e, (ast.Assign, ast.AugAssign, ast.Delete)) and "self.tracked" in u(e)] + \
+                     [e for e in p.effects if isinstance(e, ast.Expr) and "self.tracked." in u(e)]
+            if taken and taken[0]:
+                seen_int = True
+                okp = len(stores) == 1 and (tmatch(stores[0], T(f"self.tracked[{wv}] = {nodevar}.out({pv})")) is not None
+                                            or tmatch(stores[0], T(f"self.tracked[{wv}] = {nodevar}[{pv}]")) is not None)
+                if not okp:
+                    good, why = False, "on the path for an int argument: " + " | ".join(u(e) for e in stores)
+            else:
+                if stores or is_int is None and not taken:
+                    if stores:
+                        good, why = False, "a tracked index is rewritten for a non-int argument: " + " | ".join(u(e) for e in stores)
+        ctx.check(good and seen_int, R3, "TrackedDfg.add: rebinding", file, lp.lineno,
+                  "for each position p whose argument is an int i, tracked[i] must become the new node's output p; other arguments are skipped. " + why, lp)
+        after = add.body.index(node_defs[0]) < add.body.index(lp)
         ctx.check(after, R3, "TrackedDfg.add: rebinding after creation", file, lp.lineno, "indices are rebound only after the node has been wired with the old wires", lp)
     else:
-        ctx.fail(R3, "TrackedDfg.add: rebinding", file, add.lineno, "no rebinding loop over enumerate(com.incoming)", add)
+        ctx.fail(R3, "TrackedDfg.add: rebinding", file, add_o.lineno, "no rebinding loop over enumerate(com.incoming) after the node is created", add_o)
     rets = [r for r in ast.walk(add) if isinstance(r, ast.Return)]
-    ctx.check(len(rets) == 1 and u(rets[0].value) == "n", R3, "TrackedDfg.add: returns the node", file, add.lineno, "", add)
+    ctx.check(len(rets) == 1 and nodevar is not None and u(rets[0].value) == nodevar, R3, "TrackedDfg.add: returns the node", file, add_o.lineno, "", add_o)
 
 
 def tracked_index_rules(ctx) -> None:
     prog = ctx.program
     td = prog.cls(TD)
     file = td.module.path
-    nf = NF(prog)
-    # ---- R4
+    R = "C15.R4"
+    # ---- who writes `tracked`, and how (on canonical bodies, so helpers extracted from a method are seen in it)
     writers = {}
-    for name, fn in td.methods.items():
+    for name in td.methods:
+        fn = ctx.cfn(f"{TD}.{name}")
         for n in ast.walk(fn):
             w = None
             if isinstance(n, ast.Assign):
@@ -156,6 +169,8 @@ def tracked_index_rules(ctx) -> None:
                         w = "rebind"
                     if isinstance(t, ast.Subscript) and u(t.value) == "self.tracked":
                         w = f"store:{u(n.value)}" if name == "untrack_wire" else "store"
+            if isinstance(n, ast.AugAssign) and "self.tracked" in u(n.target):
+                w = "augassign"
             if isinstance(n, ast.Delete) and any("self.tracked" in u(t) for t in n.targets):
                 w = "delete"
             if isinstance(n, ast.Call) and isinstance(n.func, ast.Attribute) and u(n.func.value) == "self.tracked" and n.func.attr in LIST_SHRINK | {"append"}:
@@ -166,74 +181,86 @@ def tracked_index_rules(ctx) -> None:
     for name, ws in writers.items():
         kinds = {w for w, _ in ws}
         ok = name in allowed and kinds <= allowed[name]
-        ctx.check(ok, "C15.R4", f"TrackedDfg.{name}: writes tracked", file, ws[0][1].lineno,
+        ctx.check(ok, R, f"TrackedDfg.{name}: writes tracked", file, ws[0][1].lineno,
                   f"{name} changes `tracked` by {sorted(kinds)}: indices must stay stable -- only append (track), tracked[i] = None (untrack) and "
                   "tracked[i] = wire (add) are allowed", ws[0][1], detail=str(sorted(kinds)))
     for mn, m in prog.modules.items():
         for n in ast.walk(m.tree):
             if isinstance(n, ast.Attribute) and n.attr == "tracked" and isinstance(n.ctx, (ast.Store, ast.Del)) and mn != "hugr.build.tracked_dfg":
-                ctx.fail("C15.R4", f"{mn}: writes tracked", m.path, n.lineno, "tracked is written outside TrackedDfg", n)
-    twm = td.methods.get("tracked_wire")
-    g = CFG(real_body(twm))
-    raises = [n for n, s in g.stmt.items() if isinstance(s, ast.Raise) and "IndexError" in u(s)]
-    rets = [n for n, s in g.stmt.items() if isinstance(s, ast.Return)]
-    ok = len(raises) == 1 and len(rets) == 1
-    if ok:
-        tests = [n for n in g.dominators()[raises[0]] if g.kind.get(n) == "test"]
-        ok = any(u(g.stmt[t]) == "tracked is None" for t in tests) and rets[0] not in g.reachable(0, avoid=set(tests))
-        handlers = [s for s in ast.walk(twm) if isinstance(s, ast.ExceptHandler)]
-        ok = ok and len(handlers) == 1 and u(handlers[0].type) == "IndexError" and any(u(x) == "tracked = None" for x in handlers[0].body)
-        ok = ok and any(isinstance(s, ast.Assign) and u(s) == f"tracked = self.tracked[{twm.args.args[1].arg}]" for s in ast.walk(twm))
-    ctx.check(ok, "C15.R4", "TrackedDfg.tracked_wire", file, twm.lineno,
-              "tracked_wire(i) returns tracked[i] and raises IndexError when the index is out of range or no longer tracked", twm)
-    ut = td.methods.get("untrack_wire")
-    rb = real_body(ut)
-    p = ut.args.args[1].arg
-    ok = [u(s) for s in rb] == [f"w = self.tracked_wire({p})", f"self.tracked[{p}] = None", "return w"]
-    ctx.check(ok, "C15.R4", "TrackedDfg.untrack_wire", file, ut.lineno, "untracking checks the index, frees it for good (None) and returns the wire", ut)
-    tk = td.methods.get("track_wire")
-    rb = real_body(tk)
-    ok = [u(s) for s in rb] == [f"self.tracked.append({tk.args.args[1].arg})", "return len(self.tracked) - 1"]
-    ctx.check(ok, "C15.R4", "TrackedDfg.track_wire", file, tk.lineno, "tracking appends and returns the new (last) index", tk)
-    so = td.methods.get("set_tracked_outputs")
-    ok = so is not None and u(real_body(so)[-1]) in ("self.set_outputs(*(w for w in self.tracked if w is not None))", "self.set_outputs(*[w for w in self.tracked if w is not None])")
-    ctx.check(ok, "C15.R4", "TrackedDfg.set_tracked_outputs", file, so.lineno if so else 1, "outputs set from tracked indices are the still-tracked wires in index order", so)
-    si = td.methods.get("set_indexed_outputs")
-    ok = si is not None and u(real_body(si)[-1]) == f"self.set_outputs(*self._to_wires({si.args.vararg.arg}))"
-    ctx.check(ok, "C15.R4", "TrackedDfg.set_indexed_outputs", file, si.lineno if si else 1, "indexed outputs resolve ints through the tracked wires", si)
-    init = td.methods.get("__init__")
-    ok = init is not None and any(u(s) == "self.tracked = list(self.inputs()) if track_inputs else []" for s in real_body(init))
-    ctx.check(ok, "C15.R4", "TrackedDfg.__init__", file, init.lineno if init else 1, "tracking starts empty or with the inputs in order", init)
-    for name, want_src in (("track_wires", "return [self.track_wire(w) for w in wires]"), ("track_inputs", "return self.track_wires(self.inputs())")):
-        m = td.methods.get(name)
-        ctx.check(m is not None and u(real_body(m)[-1]) == want_src, "C15.R4", f"TrackedDfg.{name}", file, m.lineno if m else 1, "", m)
+                ctx.fail(R, f"{mn}: writes tracked", m.path, n.lineno, "tracked is written outside TrackedDfg", n)
 
-
-
+    def fn_of(name):
+        f, _, _ = ctx.locate(f"{TD}.{name}")
+        return f
+    # tracked_wire(i): returns tracked[i] only when it is not None; every other outcome is an IndexError
+    twm = fn_of("tracked_wire")
+    i = twm.args.args[1].arg
+    ps = ctx.paths(f"{TD}.tracked_wire")
+    rets = [p for p in ps if p.kind == "return"]
+    others = [p for p in ps if p.kind != "return"]
+    ok = bool(rets) and all(p.value_text() == f"self.tracked[{i}]" and p.has_test(f"self.tracked[{i}] is not None", True) is not None for p in rets) \
+        and all(p.kind == "raise" and p.value is not None and u(p.value).startswith("IndexError") for p in others) \
+        and any(p.has_test(f"self.tracked[{i}] is not None", False) is not None for p in others)
+    ctx.check(ok, R, "TrackedDfg.tracked_wire", file, twm.lineno,
+              "tracked_wire(i) returns tracked[i] and raises IndexError when the index is out of range or no longer tracked", twm,
+              found="; ".join(p.describe() for p in ps)[:300])
+    ut = fn_of("untrack_wire")
+    i = ut.args.args[1].arg
+    ps = ctx.paths(f"{TD}.untrack_wire")
+    ok = bool(ps)
+    for p in ps:
+        if p.kind == "raise":
+            continue
+        chk = p.find_effect(f"self.tracked_wire({i})")
+        st = p.find_effect(f"self.tracked[{i}] = None")
+        ok = ok and p.kind == "return" and bool(chk) and len(st) == 1 and chk[0][0] < st[0][0] and p.value_text() == f"self.tracked_wire({i})"
+    ctx.check(ok, R, "TrackedDfg.untrack_wire", file, ut.lineno, "untracking checks the index, frees it for good (None) and returns the wire", ut,
+              found="; ".join(p.describe() + " :: " + " | ".join(p.effect_texts()) for p in ps)[:300])
+    tk = fn_of("track_wire")
+    w = tk.args.args[1].arg
+    ps = ctx.paths(f"{TD}.track_wire")
+    ok = bool(ps) and all(p.kind == "return" and len(p.find_effect(f"self.tracked.append({w})")) == 1 and len(p.effects) == 1
+                          and p.value_text() in ("len(self.tracked) - 1", "old_(len(self.tracked))") for p in ps)
+    ctx.check(ok, R, "TrackedDfg.track_wire", file, tk.lineno, "tracking appends and returns the new (last) index", tk,
+              found="; ".join(p.describe() + " :: " + " | ".join(p.effect_texts()) for p in ps)[:300])
+    need(ctx, R, f"{TD}.set_tracked_outputs", "TrackedDfg.set_tracked_outputs", ["self.set_outputs(*(c0 for c0 in self.tracked if c0 is not None))"],
+         "outputs set from tracked indices are the still-tracked wires in index order")
+    need(ctx, R, f"{TD}.set_indexed_outputs", "TrackedDfg.set_indexed_outputs", ["self.set_outputs(*self._to_wires(L_in))"], "indexed outputs resolve ints through the tracked wires")
+    init = fn_of("__init__")
+    ps = [p for p in ctx.paths(f"{TD}.__init__") if p.kind != "raise"]
+    ok = bool(ps)
+    for p in ps:
+        st = [e for e in p.effects if isinstance(e, ast.Assign) and u(e.targets[0]) == "self.tracked"]
+        t = [k for t_, k in p.tests if u(t_) == "track_inputs"]
+        ok = ok and len(st) == 1 and len(t) == 1 and u(st[0].value) == ("[*self.inputs()]" if t[0] else "[]")
+    ctx.check(ok, R, "TrackedDfg.__init__", file, init.lineno, "tracking starts empty or with the inputs in order", init,
+              found="; ".join(p.describe() + " :: " + " | ".join(p.effect_texts()) for p in ps)[:300])
+    need(ctx, R, f"{TD}.track_wires", "TrackedDfg.track_wires", ["return [self.track_wire(c0) for c0 in L_wires]"])
+    need(ctx, R, f"{TD}.track_inputs", "TrackedDfg.track_inputs", ["return self.track_wires(self.inputs())"])
 
 
 # ---------------------------------------------------------------------------------------
-T = "hugr-py/src/hugr/build/tracked_dfg.py"
+TF = "hugr-py/src/hugr/build/tracked_dfg.py"
 CL = "hugr-py/src/hugr/build/cond_loop.py"
 MUTANTS = [
-    dict(name="metadata-dropped", file=T, expect=["C15.R1", "C15.R2"], old="        n = self.add_op(com.op, *wires, metadata=metadata)", new="        n = self.add_op(com.op, *wires)"),
-    dict(name="rebind-wrong-port", file=T, expect="C15.R3", old="            self.tracked[tracked_idx] = n.out(port_offset)", new="            self.tracked[tracked_idx] = n.out(0)"),
-    dict(name="rebind-position-index", file=T, expect="C15.R3", old="            self.tracked[tracked_idx] = n.out(port_offset)", new="            self.tracked[port_offset] = n.out(port_offset)"),
-    dict(name="rebind-before-create", file=T, expect=["C15.R3", "C15.R2"], old="        wires = self._to_wires(com.incoming)\n        n = self.add_op(com.op, *wires, metadata=metadata)\n",
+    dict(name="metadata-dropped", file=TF, expect=["C15.R1", "C15.R2"], old="        n = self.add_op(com.op, *wires, metadata=metadata)", new="        n = self.add_op(com.op, *wires)"),
+    dict(name="rebind-wrong-port", file=TF, expect="C15.R3", old="            self.tracked[tracked_idx] = n.out(port_offset)", new="            self.tracked[tracked_idx] = n.out(0)"),
+    dict(name="rebind-position-index", file=TF, expect="C15.R3", old="            self.tracked[tracked_idx] = n.out(port_offset)", new="            self.tracked[port_offset] = n.out(port_offset)"),
+    dict(name="rebind-before-create", file=TF, expect=["C15.R3", "C15.R2"], old="        wires = self._to_wires(com.incoming)\n        n = self.add_op(com.op, *wires, metadata=metadata)\n",
          new="        n = self.add_op(com.op, metadata=metadata)\n"),
-    dict(name="wires-reversed", file=T, expect="C15.R2", old="        wires = self._to_wires(com.incoming)", new="        wires = self._to_wires(reversed(com.incoming))"),
-    dict(name="to-wires-positional", file=T, expect="C15.R2", old="            self.tracked_wire(inc) if isinstance(inc, int) else inc for inc in in_wires", new="            self.tracked[inc] if isinstance(inc, int) else inc for inc in in_wires  # type: ignore[misc]"),
-    dict(name="untrack-pops", file=T, expect="C15.R4", old="        self.tracked[index] = None\n        return w", new="        self.tracked.pop(index)\n        return w"),
-    dict(name="untrack-unchecked", file=T, expect="C15.R4", old="        w = self.tracked_wire(index)\n        self.tracked[index] = None", new="        w = self.tracked[index]\n        self.tracked[index] = None"),
-    dict(name="tracked-wire-none-ok", file=T, expect="C15.R4", old="        if tracked is None:\n            msg = f\"Index {index} not a tracked wire.\"\n            raise IndexError(msg)\n", new=""),
-    dict(name="track-returns-len", file=T, expect="C15.R4", old="        return len(self.tracked) - 1", new="        return len(self.tracked)"),
-    dict(name="outputs-keep-none", file=T, expect="C15.R4", old="        self.set_outputs(*(w for w in self.tracked if w is not None))", new="        self.set_outputs(*(w for w in self.tracked if w))"),
-    dict(name="outputs-reversed", file=T, expect="C15.R4", old="        self.set_outputs(*(w for w in self.tracked if w is not None))", new="        self.set_outputs(*(w for w in reversed(self.tracked) if w is not None))"),
+    dict(name="wires-reversed", file=TF, expect="C15.R2", old="        wires = self._to_wires(com.incoming)", new="        wires = self._to_wires(reversed(com.incoming))"),
+    dict(name="to-wires-positional", file=TF, expect="C15.R2", old="            self.tracked_wire(inc) if isinstance(inc, int) else inc for inc in in_wires", new="            self.tracked[inc] if isinstance(inc, int) else inc for inc in in_wires  # type: ignore[misc]"),
+    dict(name="untrack-pops", file=TF, expect="C15.R4", old="        self.tracked[index] = None\n        return w", new="        self.tracked.pop(index)\n        return w"),
+    dict(name="untrack-unchecked", file=TF, expect="C15.R4", old="        w = self.tracked_wire(index)\n        self.tracked[index] = None", new="        w = self.tracked[index]\n        self.tracked[index] = None"),
+    dict(name="tracked-wire-none-ok", file=TF, expect="C15.R4", old="        if tracked is None:\n            msg = f\"Index {index} not a tracked wire.\"\n            raise IndexError(msg)\n", new=""),
+    dict(name="track-returns-len", file=TF, expect="C15.R4", old="        return len(self.tracked) - 1", new="        return len(self.tracked)"),
+    dict(name="outputs-keep-none", file=TF, expect="C15.R4", old="        self.set_outputs(*(w for w in self.tracked if w is not None))", new="        self.set_outputs(*(w for w in self.tracked if w))"),
+    dict(name="outputs-reversed", file=TF, expect="C15.R4", old="        self.set_outputs(*(w for w in self.tracked if w is not None))", new="        self.set_outputs(*(w for w in reversed(self.tracked) if w is not None))"),
 ]
 TWINS = [
-    dict(name="twin-listcomp-wires", file=T, old="        return (\n            self.tracked_wire(inc) if isinstance(inc, int) else inc for inc in in_wires\n        )",
+    dict(name="twin-listcomp-wires", file=TF, old="        return (\n            self.tracked_wire(inc) if isinstance(inc, int) else inc for inc in in_wires\n        )",
          new="        return [self.tracked_wire(inc) if isinstance(inc, int) else inc for inc in in_wires]"),
-    dict(name="twin-rebind-if", file=T, old="            if isinstance(com_wire, int):\n                tracked_idx = com_wire\n            else:\n                continue\n            # update tracked wires to matching port outputs of new node\n            self.tracked[tracked_idx] = n.out(port_offset)",
+    dict(name="twin-rebind-if", file=TF, old="            if isinstance(com_wire, int):\n                tracked_idx = com_wire\n            else:\n                continue\n            # update tracked wires to matching port outputs of new node\n            self.tracked[tracked_idx] = n.out(port_offset)",
          new="            if isinstance(com_wire, int):\n                self.tracked[com_wire] = n.out(port_offset)"),
 ]
 
